@@ -211,4 +211,4 @@ def prop(case):
     return Obs(maxops >= 3 and reused, labels, checks=nperms + 1)
 
 
-PARTS = [Part('schedule', prop, strategy=cases, quick=(8, 300), thorough=(16, 2500))]
+PARTS = [Part('schedule', prop, strategy=cases, quick=(8, 300), thorough=(16, 5000))]
